@@ -418,7 +418,7 @@ Qed.
 Lemma convert_dec d : convert_number (VDec d) = VDec d.
 Proof. reflexivity. Qed.
 Lemma convert_float d : convert_number (VFloat false false (FFin d)) = VDec d.
-Proof. unfold convert_number, convert_number_check. cbn. destruct (dis_zero d); reflexivity. Qed.
+Proof. unfold convert_number, convert_number_check, convert_number_check_base. cbn. destruct (dis_zero d); reflexivity. Qed.
 Lemma convert_bool b : convert_number (VBool false b) = VBool false b.
 Proof. destruct b; reflexivity. Qed.
 Lemma convert_map kt vt n kvs : convert_number (VMap kt vt n kvs) = VMap kt vt n kvs.
@@ -438,7 +438,7 @@ Qed.
 Lemma elem_number_json x : single_has PT_Number x -> exists d, elem_number x = Some d.
 Proof.
   intros [[d ->]|[d ->]]; [eexists; reflexivity|].
-  exists d. unfold elem_number, convert_number_check. cbn. destruct (dis_zero d); reflexivity.
+  exists d. unfold elem_number, convert_number_check, convert_number_check_base. cbn. destruct (dis_zero d); reflexivity.
 Qed.
 
 Lemma all_some_numbers xs : Forall (single_has PT_Number) xs -> exists ds, all_some (map elem_number xs) = Some ds.
